@@ -871,6 +871,16 @@ def _apply(engine, st, clo, argv):
     fn = engine.resolve_fn(clo.name)
     res = engine.call_pure(st, fn, [_clo_arg(engine, st, clo, fn)] + list(argv))
     res = [r for r in res if r.status == "return"]
+    if len(res) > 1:
+        # a predicate that forks (e.g. compares an opaque field): its answer is the disjunction over its paths
+        parts = []
+        for r in res:
+            v = r.value
+            b = v if (z3.is_expr(v) and z3.is_bool(v)) else ((v != 0) if (z3.is_expr(v) and z3.is_bv(v) and v.size() <= 8) else None)
+            if b is None:
+                raise Unsupported("closure forks or panics (%d returning paths)" % len(res))
+            parts.append(z3.And(*(list(r.pc[len(st.pc):]) + [b])))
+        return z3.simplify(z3.Or(*parts))
     if len(res) != 1:
         raise Unsupported("closure forks or panics (%d returning paths)" % len(res))
     return res[0].value
